@@ -1,8 +1,8 @@
 (** C09 — results are invariant under relabelling, padding, splitting and taking subsets.
     Property theorems only. *)
-From Coq Require Import Reals List ZArith.
+From Coq Require Import Reals List ZArith Permutation.
 From Interval Require Import Real.Xreal Interval.Interval Eval.Prog Eval.Tree Eval.Eval.
-From FeosVerif Require Import ProgSem ProgSemBig ParamLookup Canon CanonDeriv AD.
+From FeosVerif Require Import ProgSem ProgSemBig ParamLookup Canon CanonDeriv AD HenryIdxC09.
 
 (** A sub-model extracted with [subset] and a model built directly from the same records with the
     same options whose regenerated programs are syntactically identical denote the same function:
@@ -69,3 +69,33 @@ Theorem C09_canonical_derivatives_agree : forall A B zs piA piB oa ob,
   da = db.
 Proof. exact canon_tangent_agree. Qed.
 Print Assumptions C09_canonical_derivatives_agree.
+
+(** The index bookkeeping of [State::henrys_law_constant] (HenryIdxC09.v; tied to the code on every run by the correspondence check of
+    checks/c09.py: the plan evaluated from these definitions for every zero pattern is replayed on the public API and must reproduce the
+    returned Henry constants).  With every component carrying a label, and a bubble-point oracle that returns [yv l] for the solvent
+    component labelled l in whatever order the solvent is listed, the full-length vapour composition built by the write-back loop is the
+    order-free [map] below; the solvent sub-model is built from the solvents in listing order; the returned constants are those of the
+    solutes in listing order.  Hence reordering the components reorders the results and changes nothing else. *)
+Theorem C09_henry_writeback_by_label : forall (A : Type) (isz : A -> bool) (L : Type) (yv : L -> A) (cs : list (L * A)),
+  scatter (map snd cs) (solvent_idx isz (map snd cs)) (map (fun c => yv (fst c)) (solvents isz cs))
+  = map (fun c => if is_solute isz c then snd c else yv (fst c)) cs.
+Proof. exact @writeback_by_label. Qed.
+Print Assumptions C09_henry_writeback_by_label.
+
+Theorem C09_henry_solvent_submodel_by_label : forall (A : Type) (isz : A -> bool) (L : Type) (d : L * A) (cs : list (L * A)),
+  map (fun j => fst (nth j cs d)) (solvent_idx isz (map snd cs)) = map fst (solvents isz cs).
+Proof. exact @solvent_labels_by_label. Qed.
+Print Assumptions C09_henry_solvent_submodel_by_label.
+
+Theorem C09_henry_results_by_label : forall (A : Type) (isz : A -> bool) (L B : Type) (hv : L -> B) (cs : list (L * A)),
+  select_solutes isz (map (fun c => hv (fst c)) cs) (map snd cs) = map (fun c => hv (fst c)) (filter (is_solute isz) cs).
+Proof. exact @select_by_label. Qed.
+Print Assumptions C09_henry_results_by_label.
+
+Theorem C09_henry_writeback_relabelling : forall (A : Type) (isz : A -> bool) (L : Type) (yv : L -> A) (cs cs' : list (L * A)),
+  Permutation cs cs' ->
+  Permutation
+    (combine (map fst cs) (scatter (map snd cs) (solvent_idx isz (map snd cs)) (map (fun c => yv (fst c)) (solvents isz cs))))
+    (combine (map fst cs') (scatter (map snd cs') (solvent_idx isz (map snd cs')) (map (fun c => yv (fst c)) (solvents isz cs')))).
+Proof. exact @writeback_permutation. Qed.
+Print Assumptions C09_henry_writeback_relabelling.
